@@ -29,7 +29,10 @@ def S(name, fn, quick_kw, thorough_kw=None, shards=1, functions=None, timeout=90
 
 
 CATALOG = {
-    "C03": [S("s-c03-positions-plain", "c03_positions", {"n": 13, "structured": False}, {"n": 18, "structured": False}),
+    "C01": [S("s-c01-recognition", "c12_rule", {"m": 19}, {"m": 24}, functions=[REGEXES, "str::parse::<u32> (decimal value <= 4294967295)"])],
+    "C03": [S("s-c03-existing-structured", "c13_existing", {"quick": True}, {"quick": False}, shards=8, functions=[GRAMMAR, FIND]),
+            S("s-c03-existing-plain", "c12_in_statement", {}, shards=3, functions=[GRAMMAR, FIND, REGEXES]),
+            S("s-c03-positions-plain", "c03_positions", {"n": 13, "structured": False}, {"n": 18, "structured": False}),
             S("s-c03-positions-structured", "c03_positions", {"n": 13, "structured": True}, {"n": 18, "structured": True}),
             S("s-c03-literals", "c03_literals", {}, functions=[TOKENS])],
     "C06": [S("s-c06-plain", "c06_roundtrip", {"structured": False, "quick": True}, {"structured": False, "quick": False}, shards=4,
@@ -39,12 +42,15 @@ CATALOG = {
             S("s-c06-placement-structured", "c10_templates", {"structured": True, "quick": True}, {"structured": True, "quick": False}, shards=6),
             S("s-c06-placement-plain", "c10_templates", {"structured": False, "quick": True}, {"structured": False, "quick": False}, shards=6)],
     "C10": [S("s-c10-multi-config", "c10_multi_config", {}, shards=3),
+            S("s-c10-prefix-literals", "c10_prefix_literals", {"structured": False}, shards=2),
+            S("s-c10-prefix-literals-structured", "c10_prefix_literals", {"structured": True}, shards=2),
             S("s-c10-plain", "c10_templates", {"structured": False, "quick": True}, {"structured": False, "quick": False}, shards=6),
             S("s-c10-structured", "c10_templates", {"structured": True, "quick": True}, {"structured": True, "quick": False}, shards=6)],
     "C11x": [],
     "C11": [S("s-c11-multi-config", "c10_multi_config", {}, shards=3),
             S("s-c11-freeform", "c11_freeform", {"n": 16}, {"n": 22}),
             S("s-c11-names", "c11_names", {}, shards=2),
+            S("s-c11-names-structured", "c11_names", {"structured": True}, shards=2),
             S("s-c11-strings", "c11_strings", {"n_body": 10}, {"n_body": 14})],
     "C12": [S("s-c12-rule", "c12_rule", {"m": 19}, {"m": 24}, functions=[REGEXES, "str::parse::<u32> (as decimal value <= 4294967295; cross-checked by Kani harness u_parse in the thorough tier)"]),
             S("s-c12-statement", "c12_in_statement", {}, shards=3, functions=[GRAMMAR, FIND, REGEXES]),
